@@ -327,7 +327,7 @@ func (e *Engine) evalIdent(env *Env, name string) Value {
 	switch name {
 	case "snap", "ismap", "anyref":
 		return FuncRefV{Name: name}
-	case "isint64", "isfloat64", "isstring", "isbool", "anyint", "anystr", "anybool", "isjsonnumber":
+	case "isint64", "isfloat64", "isstring", "isbool", "anyint", "anystr", "anybool", "isjsonnumber", "anyfloat", "float64", "feq", "uf":
 		return FuncRefV{Name: name}
 	case "len", "cap", "fresh", "as", "typeis", "isnil", "arrid", "abs", "min", "max", "allocated", "sameslice", "unchanged", "str", "int64", "uint64", "int", "byte", "implies", "ident":
 		return FuncRefV{Name: name}
@@ -525,6 +525,24 @@ func (e *Engine) evalBinary(env *Env, n *cexpr.Node) Value {
 			return BoolV{smt.App("f64_lt", smt.Bool, fy.T, fx.T)}
 		case ">=":
 			return BoolV{smt.App("f64_le", smt.Bool, fy.T, fx.T)}
+		}
+	}
+	if sx, ok := x.(StrV); ok {
+		// string ordering: the same uninterpreted relation the executor uses for Go's < on strings
+		sy := y.(StrV)
+		if _, ok := smt.FunDecls["str_lt"]; !ok {
+			smt.DeclareFun("str_lt", []smt.Sort{smt.IArr, smt.Int, smt.Int, smt.IArr, smt.Int, smt.Int}, smt.Bool)
+		}
+		lt := func(p, q StrV) *smt.Term { return smt.App("str_lt", smt.Bool, p.Arr, p.Off, p.Len, q.Arr, q.Off, q.Len) }
+		switch n.Op {
+		case "<":
+			return BoolV{lt(sx, sy)}
+		case ">":
+			return BoolV{lt(sy, sx)}
+		case "<=":
+			return BoolV{smt.Not(lt(sy, sx))}
+		case ">=":
+			return BoolV{smt.Not(lt(sx, sy))}
 		}
 	}
 	a, ok1 := x.(IntV)
@@ -808,6 +826,36 @@ func (e *Engine) evalCall(env *Env, n *cexpr.Node) Value {
 		return IntV{smt.AppS("val_i", smt.Int, e.eval(env, args[0]).(AnyV).T)}
 	case "anybool":
 		return BoolV{smt.AppS("val_b", smt.Bool, e.eval(env, args[0]).(AnyV).T)}
+	case "anyfloat":
+		return FloatV{smt.AppS("val_f", smt.F64, e.eval(env, args[0]).(AnyV).T)}
+	case "float64":
+		// float64(i): Go's conversion of an integer (the executor's f64_of_int); a float argument is returned unchanged
+		switch v := e.eval(env, args[0]).(type) {
+		case IntV:
+			return FloatV{smt.App("f64_of_int", smt.F64, v.T)}
+		case FloatV:
+			return v
+		}
+		panic("float64: integer or float argument expected")
+	case "feq":
+		// feq(a, b): Go's == on float64 (not term identity: NaN != NaN)
+		return BoolV{smt.App("f64_eq", smt.Bool, e.eval(env, args[0]).(FloatV).T, e.eval(env, args[1]).(FloatV).T)}
+	case "uf":
+		// uf("name", x, ...): an uninterpreted boolean function of interface values (the deterministic result of a trusted callee)
+		if args[0].Kind != "str" {
+			panic("uf: first argument must be a string literal")
+		}
+		name := "uf_" + args[0].Val
+		var ts []*smt.Term
+		var ss []smt.Sort
+		for _, a := range args[1:] {
+			ts = append(ts, e.eval(env, a).(AnyV).T)
+			ss = append(ss, smt.Any)
+		}
+		if _, ok := smt.FunDecls[name]; !ok {
+			smt.DeclareFun(name, ss, smt.Bool)
+		}
+		return BoolV{smt.App(name, smt.Bool, ts...)}
 	case "anystr":
 		a := e.eval(env, args[0]).(AnyV).T
 		return StrV{smt.AppS("arr_s", smt.IArr, a), smt.AppS("off_s", smt.Int, a), smt.AppS("len_s", smt.Int, a)}
